@@ -77,6 +77,26 @@ def impl(case):
     with freeze_time(dt.datetime(y, m, d, 13, 37)):
         try:
             r = expand_file_group_paths(args, file_group_map=gmap)
+            if len(case["args"]) % 2 == 0:
+                # ... and what `zorg edit` hands to the editor is that expansion, path by path (same order, nothing dropped)
+                import zorg.app.runners._run_edit as RE
+                from clack import clack_envvars_set
+                from zorg.app.config import EditConfig, TemplateRenderConfig
+                from zorg.shared import common as zc
+
+                got = []
+                o_handle, o_init = RE.messagebus.handle, RE.init_from_template
+                RE.messagebus.handle = lambda zdir, url, msgs, **kw: got.extend(msgs[0].paths)
+                RE.init_from_template = lambda *a, **k: None
+                try:
+                    with clack_envvars_set("zorg", [EditConfig, TemplateRenderConfig]):
+                        cfg = EditConfig(command="edit", zo_paths=[Path(a) for a in case["args"]], file_group_map=case["map"], zettel_dir=Path("/zz"))
+                        RE.run_edit(cfg)
+                finally:
+                    RE.messagebus.handle, RE.init_from_template = o_handle, o_init
+                want = zc.bulk_prepend_zdir(Path("/zz"), r)
+                if [str(p) for p in got] != [str(p) for p in want]:
+                    return {"err": "edit_paths", "got": [str(p) for p in got], "want": [str(p) for p in want]}
             return {"ok": [str(p) for p in r]}
         except KeyError as e:
             return {"err": "keyError", "name": str(e.args[0])}
